@@ -223,10 +223,18 @@ func alphabetSites(pk *packages.Package) []alphaSite {
 // statements of the same block: W is then the value for every alphabet not
 // tested positively by the chain.
 func defaultIdiom(info *types.Info, stack []ast.Node, id *ast.Ident) (string, string, bool) {
-	// find the assignment statement and its block
+	// find the assignment statement and its block; the variable that receives the default is a
+	// plain variable (`all := K`), a field (`x.all = K`) or a field of a composite literal
+	// (`x := T{all: K}`)
 	var asg *ast.AssignStmt
 	var blk *ast.BlockStmt
+	field := ""
 	for i := len(stack) - 1; i >= 0; i-- {
+		if kv, ok := stack[i].(*ast.KeyValueExpr); ok && field == "" {
+			if k, ok := kv.Key.(*ast.Ident); ok {
+				field = k.Name
+			}
+		}
 		if a, ok := stack[i].(*ast.AssignStmt); ok && asg == nil {
 			asg = a
 			if i > 0 {
@@ -238,8 +246,22 @@ func defaultIdiom(info *types.Info, stack []ast.Node, id *ast.Ident) (string, st
 	if asg == nil || blk == nil || len(asg.Lhs) != 1 {
 		return "", "", false
 	}
-	lhs, ok := asg.Lhs[0].(*ast.Ident)
-	if !ok {
+	var lhs *ast.Ident
+	switch l := asg.Lhs[0].(type) {
+	case *ast.Ident:
+		lhs = l
+		if _, isLit := asg.Rhs[0].(*ast.CompositeLit); !isLit {
+			if u, isU := asg.Rhs[0].(*ast.UnaryExpr); !isU || u.Op != token.AND {
+				field = ""
+			}
+		}
+	case *ast.SelectorExpr:
+		b, ok := l.X.(*ast.Ident)
+		if !ok {
+			return "", "", false
+		}
+		lhs, field = b, l.Sel.Name
+	default:
 		return "", "", false
 	}
 	vobj := info.Defs[lhs]
@@ -248,6 +270,49 @@ func defaultIdiom(info *types.Info, stack []ast.Node, id *ast.Ident) (string, st
 	}
 	if vobj == nil {
 		return "", "", false
+	}
+	// mentions of the variable that would read the default before the override
+	reads := func(s ast.Stmt) bool {
+		if field == "" {
+			return usesObj(info, s, vobj)
+		}
+		found := false
+		ast.Inspect(s, func(n ast.Node) bool {
+			switch x := n.(type) {
+			case *ast.SelectorExpr:
+				if b, ok := x.X.(*ast.Ident); ok && (info.Uses[b] == vobj) {
+					if x.Sel.Name == field {
+						found = true
+					}
+					return false // another field of the struct: not a read of this one
+				}
+			case *ast.Ident:
+				if info.Uses[x] == vobj {
+					found = true // the struct as a whole (passed on, copied)
+				}
+			}
+			return !found
+		})
+		return found
+	}
+	assigns := func(body *ast.BlockStmt) bool {
+		if field == "" {
+			return assignsTo(info, body, vobj)
+		}
+		found := false
+		ast.Inspect(body, func(n ast.Node) bool {
+			if a, ok := n.(*ast.AssignStmt); ok {
+				for _, l := range a.Lhs {
+					if se, ok := l.(*ast.SelectorExpr); ok && se.Sel.Name == field {
+						if b, ok := se.X.(*ast.Ident); ok && info.Uses[b] == vobj {
+							found = true
+						}
+					}
+				}
+			}
+			return true
+		})
+		return found
 	}
 	after := false
 	for _, s := range blk.List {
@@ -260,22 +325,22 @@ func defaultIdiom(info *types.Info, stack []ast.Node, id *ast.Ident) (string, st
 		}
 		ifs, ok := s.(*ast.IfStmt)
 		if !ok {
-			// a statement that does not mention v may sit in between
-			if usesObj(info, s, vobj) {
+			// a statement that does not read the variable may sit in between
+			if reads(s) {
 				return "", "", false
 			}
 			continue
 		}
 		// collect the positive classes of the chain whose arms assign v
 		var neg []alphaAtom
-		assigns := false
+		assigned := false
 		for cur := ifs; cur != nil; {
 			at := alphaAtoms(info, cur.Cond, true)
 			if len(at) != 1 || !at[0].eq {
 				return "", "", false
 			}
-			if assignsTo(info, cur.Body, vobj) {
-				assigns = true
+			if assigns(cur.Body) {
+				assigned = true
 			}
 			neg = append(neg, alphaAtom{at[0].expr, false, at[0].k})
 			switch e := cur.Else.(type) {
@@ -283,7 +348,7 @@ func defaultIdiom(info *types.Info, stack []ast.Node, id *ast.Ident) (string, st
 				cur = e
 			case *ast.BlockStmt:
 				// final else: the default never survives when it assigns v
-				if assignsTo(info, e, vobj) {
+				if assigns(e) {
 					return "neither", "overwritten by the final else", true
 				}
 				cur = nil
@@ -291,7 +356,7 @@ func defaultIdiom(info *types.Info, stack []ast.Node, id *ast.Ident) (string, st
 				cur = nil
 			}
 		}
-		if !assigns {
+		if !assigned {
 			return "", "", false
 		}
 		cl, how := classOfAtoms(neg)
